@@ -95,7 +95,7 @@ function elementD(s) {
 function elementC(c) {
   // numeric character references (one character per reference, followed by nothing)
   const code = c.codePointAt(0)
-  return `<c d="&#${code};" h="&#x${code.toString(16)};" H="&#x${code.toString(16).toUpperCase()};">[&#${code};|&#x${code.toString(16)};]</c>`
+  return `<c d="&#${code};" h="&#x${code.toString(16)};" H="&#x${code.toString(16).toUpperCase()};" X="&#X${code.toString(16)};">[&#${code};|&#x${code.toString(16)};]</c>`
 }
 
 function usableInLiteral(s) {
@@ -223,7 +223,7 @@ function judge(cs2, a, b, c, rep, d, defs) {
   }
   if (c) {
     rep.evaluations += 4
-    for (const [ctx, name] of [['decimal-reference', 'd'], ['hex-reference', 'h'], ['HEX-reference', 'H']]) {
+    for (const [ctx, name] of [['decimal-reference', 'd'], ['hex-reference', 'h'], ['HEX-reference', 'H'], ['hex-reference-upper-case-x', 'X']]) {
       const got = attr(c, 'attr', name)
       if (got !== ch) report(ctx, got, ch)
     }
@@ -296,9 +296,27 @@ function namedEntities(rep) {
   }
 }
 
+function fileMarks(rep) {
+  // a byte order mark at the start of the file is an encoding mark: what arrives is what the file without it denotes
+  const bodies = ['<e v="x">y</e>', '\n<e v="x">y</e>', 'text<e/>', '{{ "s" }}', '<!-- c --><e/>', '', ' ', '<template name="t">z</template><template is="t"/>']
+  for (const body of bodies) {
+    rep.states += 1
+    rep.evaluations += 1
+    const render = (src) => {
+      const r = C.compileBatch([{ id: 0, files: [['s', src]], want: ['groups'] }], 1)[0]
+      if (r.panic) return 'panic'
+      try { return JSON.stringify([RT.render(RT.loadGroups(r.outputs.groups.ok, false), 's', {}).nodes, (r.diags.s || []).map((d) => d.kind)]) } catch (e) { return 'throws ' + e }
+    }
+    const want = render(body)
+    const got = render('\ufeff' + body)
+    if (got !== want) rep.violation('C12|byte-order-mark|' + JSON.stringify(body).slice(0, 30), `the template ${show('\ufeff' + body)} (byte order mark, then ${show(body)}) delivers ${got.slice(0, 200)}, the same file without the mark delivers ${want.slice(0, 200)}`, { engine: 'c12', bom: body })
+    rep.nontrivialCase('bom+' + body)
+  }
+}
+
 function replayOne(rec) {
   const rep = new C.Report()
-  if (rec.entity) { namedEntities(rep) } else {
+  if (rec.entity) { namedEntities(rep) } else if (rec.bom !== undefined) { fileMarks(rep) } else {
     const cs2 = { c: rec.c, s: rec.s, hasB: usableInLiteral(rec.s), hasC: rec.s.length === String.fromCodePoint(rec.c).length }
     checkAlone(cs2, rep)
   }
@@ -313,14 +331,14 @@ async function main() {
   const info = C.shardInfo()
   if (info) {
     const rep = runShard(info, thorough)
-    if (info.shard === 0) namedEntities(rep)
+    if (info.shard === 0) { namedEntities(rep); fileMarks(rep) }
     require('fs').writeFileSync(info.partial, JSON.stringify(rep.toPartial()))
     return
   }
   const rep = await C.runSharded(__filename, ['--tier', thorough ? 'thorough' : 'quick'])
   const res = rep.toResult('C12',
     'every Unicode scalar value below U+3000 plus block boundaries (quick) / every scalar value (thorough), followed by each of 16 successors, and every string of length 3 (quick) / 3-4 (thorough) over 11 critical characters (NUL, backslash, 0 7 8, both quotes, x u, brace, newline), embedded in 15 markup contexts, as wx:key, template name and static template-is target (looked up), (double / single quoted attribute, class, style, id, slot, data-, data:, mark, two event handlers, generic, extra-attr, worklet, static text), 3 string-literal spellings inside expressions (raw in either quote, \\xHH / \\uHHHH), decimal / hex character references in attribute and text, and all 2231 named character references; the string delivered to the recording runtime must equal the denoted string. non-trivial = non-ASCII, control or markup-significant character; distinct = distinct string',
-    { scalars: thorough ? 'all 1112064' : 'U+0000..U+2FFF + boundaries', successors: SUCCESSORS, contexts: [...Object.keys(FIND_A), ...Object.keys(FIND_B), 'decimal-reference', 'hex-reference', 'HEX-reference', 'references-in-text', 'named-entity', 'wx:key', 'template-name', 'template-is', 'template-lookup'] },
+    { scalars: thorough ? 'all 1112064' : 'U+0000..U+2FFF + boundaries', successors: SUCCESSORS, contexts: [...Object.keys(FIND_A), ...Object.keys(FIND_B), 'decimal-reference', 'hex-reference', 'HEX-reference', 'hex-reference-upper-case-x', 'byte-order-mark', 'references-in-text', 'named-entity', 'wx:key', 'template-name', 'template-is', 'template-lookup'] },
     true,
     ['V8 executes the generated code', 'characters a context cannot carry raw are spelled as documented (&amp; &lt; &quot; &#39; &#123;, backslash escapes in literals)', 'spellings the parser rejects at Error level are outside the property and counted'],
     {})
